@@ -117,7 +117,7 @@ NOINST void bus_receiver_idle_wait(void) {
 	struct timespec ts;
 	__real_pthread_mutex_lock(&bmx);
 	if (in_pos >= in_len) {
-		clock_gettime(CLOCK_REALTIME, &ts);
+		__real_clock_gettime(CLOCK_REALTIME, &ts);
 		ts.tv_nsec += 200000; if (ts.tv_nsec >= 1000000000) { ts.tv_sec++; ts.tv_nsec -= 1000000000; }
 		pthread_cond_timedwait(&bcond_in, &bmx, &ts);
 	}
@@ -134,16 +134,16 @@ NOINST void bus_set_receiver_alive(int alive) {
  * generous wall-clock guard whose expiry is reported (inconclusive), never a verdict. */
 NOINST int bus_wait_quiescent(int max_ms) {
 	struct timespec ts, t0, now; int rc = 0;
-	clock_gettime(CLOCK_MONOTONIC, &t0);
+	__real_clock_gettime(CLOCK_MONOTONIC, &t0);
 	__real_pthread_mutex_lock(&bmx);
 	while (receiver_alive && !(in_pos >= in_len && idle_polls >= 2)) {
 		__real_pthread_mutex_unlock(&bmx);
 		if (mon_receiver_blocked_by_me()) { return 0; }
 		__real_pthread_mutex_lock(&bmx);
-		clock_gettime(CLOCK_MONOTONIC, &now);
+		__real_clock_gettime(CLOCK_MONOTONIC, &now);
 		long el = (now.tv_sec - t0.tv_sec) * 1000 + (now.tv_nsec - t0.tv_nsec) / 1000000;
 		if (el > max_ms) { rc = 1; break; }
-		clock_gettime(CLOCK_REALTIME, &ts);
+		__real_clock_gettime(CLOCK_REALTIME, &ts);
 		ts.tv_nsec += 300000; if (ts.tv_nsec >= 1000000000) { ts.tv_sec++; ts.tv_nsec -= 1000000000; }
 		pthread_cond_timedwait(&bcond_idle, &bmx, &ts);
 	}
@@ -169,6 +169,7 @@ NOINST int bus_is_quiescent(void) {
 typedef struct {
 	uint8_t addr[3]; uint8_t uid[7];
 	int nfeat; uint8_t feat[32][2];
+	long long busy_until;
 	uint8_t seq;
 	int tab_iter;           /* next NODETAB row to hand out, -1 = no iteration in progress */
 	int feat_iter;
@@ -188,6 +189,10 @@ static uint8_t policy[128];         /* 0 answer, 1 alt/NA, 2 never, 3 duplicate 
 typedef struct { uint8_t type; int nth, seen, len, fired; uint8_t payload[300]; } inject_t;
 static inject_t injects[32]; static int ninject = 0;
 static long txm_index = 0;
+static int delay_ms[128];            /* per request type: virtual milliseconds a node needs for one such request (bus delay TT ms) */
+typedef struct { long long due; uint8_t addr[3], rt, r[64]; size_t rl; int seq0; long idx; } delayed_t;
+#define MAXDELAYED 512
+static delayed_t delayed[MAXDELAYED]; static int ndelayed = 0;
 
 NOINST void bus_reset(void) {
 	__real_pthread_mutex_lock(&bmx);
@@ -229,7 +234,8 @@ NOINST int bus_config_line(int argc, char **argv) {
 		j->len = hexbytes(argv[4], j->payload, sizeof j->payload); if (j->len < 0) return -1;
 		ninject++; return 0;
 	}
-	if (!strcmp(argv[1], "clear")) { ninject = 0; nnodes = 0; memset(policy, 0, sizeof policy); bus_cap = 64; feat_echo_diff = 0; tabchange_after = -1; tabchange_done = 0; bus_answer = 0; return 0; }
+	if (!strcmp(argv[1], "clear")) { ninject = 0; nnodes = 0; ndelayed = 0; memset(delay_ms, 0, sizeof delay_ms); memset(policy, 0, sizeof policy); bus_cap = 64; feat_echo_diff = 0; tabchange_after = -1; tabchange_done = 0; bus_answer = 0; return 0; }
+	if (!strcmp(argv[1], "delay") && argc >= 4) { unsigned t = strtoul(argv[2], NULL, 16); if (t >= 128) return -1; delay_ms[t] = atoi(argv[3]); return 0; }
 	if (!strcmp(argv[1], "cap") && argc >= 3) { bus_cap = atoi(argv[2]); return 0; }
 	if (!strcmp(argv[1], "brackets") && argc >= 3) { log_rx_brackets = atoi(argv[2]); return 0; }
 	if (!strcmp(argv[1], "featecho") && argc >= 3) { feat_echo_diff = !strcmp(argv[2], "diff"); return 0; }
@@ -364,6 +370,17 @@ NOINST static void answer(long idx, const uint8_t *addr, uint8_t type, const uin
 #undef D
 	if (!have) return;
 	(void)seq_override;
+	if (delay_ms[type] > 0 && ndelayed < MAXDELAYED) {
+		/* a slow node: it works on one such request at a time, each takes delay_ms of VIRTUAL time; the answer is delivered when the
+		 * library's own sleeping has let that much time pass (bus_vt_tick, called from the virtual clock) */
+		delayed_t *q = &delayed[ndelayed++];
+		long long now = (long long)vt_usec;
+		long long start = n->busy_until > now ? n->busy_until : now;
+		q->due = start + 1000LL * delay_ms[type]; n->busy_until = q->due;
+		memcpy(q->addr, addr, 3); q->rt = rt; q->rl = rl; memcpy(q->r, r, rl); q->seq0 = use_seq0; q->idx = idx;
+		ev("\"e\":\"reply_delayed\",\"req\":%ld,\"due_vt\":%lld", idx, q->due);
+		return;
+	}
 	uint8_t msg[96];
 	int reps = (pol == 3) ? 2 : 1;
 	for (int k = 0; k < reps; k++) {
@@ -372,6 +389,29 @@ NOINST static void answer(long idx, const uint8_t *addr, uint8_t type, const uin
 		char hx[256]; hexstr(hx, msg, ml);
 		ev("\"e\":\"reply\",\"req\":%ld,\"pkt\":%ld,\"rtype\":%u,\"msg\":\"%s\"", idx, pid, rt, hx);
 	}
+}
+
+/* virtual time has advanced: deliver the answers of slow nodes that are due (oldest first) */
+NOINST void bus_vt_tick(void) {
+	if (!ndelayed) return;
+	__real_pthread_mutex_lock(&bmx);
+	long long now = (long long)vt_usec;
+	int k = 0;
+	for (int i = 0; i < ndelayed; i++) {
+		delayed_t *q = &delayed[i];
+		node_t *n = find_node(q->addr);
+		if (q->due <= now) {
+			if (n) {
+				uint8_t msg[96];
+				size_t ml = build_up(msg, q->addr, q->seq0 ? 0 : next_seq(n), q->rt, q->r, q->rl);
+				long pid = push_packet_locked(msg, ml);
+				char hx[256]; hexstr(hx, msg, ml);
+				ev("\"e\":\"reply\",\"req\":%ld,\"pkt\":%ld,\"rtype\":%u,\"delayed\":1,\"msg\":\"%s\"", q->idx, pid, q->rt, hx);
+			}
+		} else delayed[k++] = *q;
+	}
+	ndelayed = k;
+	__real_pthread_mutex_unlock(&bmx);
 }
 
 /* ------------------------------------------------------------------ downlink decoder */
